@@ -20,21 +20,21 @@ import (
 )
 
 type Run struct {
-	T       testing.TB
-	ID      string
-	Seed    int64
-	Tier    string
-	Rng     *rand.Rand
-	outDir  string
-	scn     *bufio.Writer
-	impl    *bufio.Writer
-	tagw    *bufio.Writer
-	files   []*os.File
-	tags    map[string]int
-	n       int
-	fixed   []string
-	replay  bool
-	Extra   map[string]any
+	T      testing.TB
+	ID     string
+	Seed   int64
+	Tier   string
+	Rng    *rand.Rand
+	outDir string
+	scn    *bufio.Writer
+	impl   *bufio.Writer
+	tagw   *bufio.Writer
+	files  []*os.File
+	tags   map[string]int
+	n      int
+	fixed  []string
+	replay bool
+	Extra  map[string]any
 }
 
 // Open reads VERIF_SEED, VERIF_TIER, VERIF_OUT (directory), VERIF_REPLAY (file with scenario
